@@ -1,6 +1,7 @@
 import MuduoVerif.Proofs.Codec
 import MuduoVerif.Proofs.Http
 import MuduoVerif.Proofs.CodecSkelTie
+import MuduoVerif.Proofs.CodecObjects
 import MuduoVerif.Proofs.HttpSkelTie
 /-!
 # C18 — stream decoders: segmentation-invariant, bounded, reject malformed input
@@ -199,6 +200,34 @@ theorem frame_then_rest (c : Cfg) (p rest : Bytes)
     decode c (encode c p ++ rest) = ((decode c rest).1, .msg p :: (decode c rest).2) ∧
     (encode c p).length = 4 + (c.tag.length + p.length + 4) :=
   ⟨decode_encode_append c p rest hmax hp hraw, encode_length c p⟩
+
+/-! ## a message handed out stays the message -/
+
+/-- **the messages one `onMessage` call delivers are fresh objects**: for every codec, every decoder state and every
+chunk, the pointers the message callback receives during that call (`Heap.handed`) refer to pairwise distinct
+objects, and when `onMessage` has returned each of them still holds exactly the payload it was delivered with - so a
+consumer that keeps the `shared_ptr`s sees, in any segmentation, the messages that were sent.  `heldAfter` runs the
+call's events over an explicit heap (allocation counter, current object, per-object content) under the allocation
+discipline of the current source, `Gen.Codec.allocPerFrame` (T1: `prototype_->New()` is an unconditional statement of
+the loop body in front of `parse`); with `allocPerFrame = false` this theorem does not compile and
+`shared_object_is_overwritten` shows what the consumer would hold. -/
+theorem delivered_messages_are_fresh (c : Cfg) (d : Dec Unit) (chunk : Bytes) :
+    ((heldAfter (feed c d chunk).2).map (·.1)).Nodup ∧
+    (heldAfter (feed c d chunk).2).map (·.2) = (delivered (feed c d chunk).2).map some := by
+  have h := heapOf_perFrame (feed c d chunk).2 {} Heap.inv_empty
+  have hp : allocPerFrame = true := rfl
+  unfold heldAfter
+  rw [hp]
+  refine ⟨?_, ?_⟩
+  · rw [held_fst]; exact h.1.nodup
+  · rw [h.2]; simp [Heap.held]
+
+/-- the statement is not vacuous: with one object for all frames of a call (allocated lazily, or in front of the
+loop) two delivered messages are the same object and the first is overwritten by the second; with an object per
+frame they are two objects with their own contents (kernel evaluation of the heap model) -/
+theorem shared_object_is_overwritten :
+    (heapOf false {} [.msg [1], .msg [2]]).held = [(0, some [2]), (0, some [2])] ∧
+    (heapOf true {} [.msg [1], .msg [2]]).held = [(0, some [1]), (1, some [2])] := by decide
 
 /-- the loop always terminates: it is never cut short by the model's iteration allowance -/
 theorem decoder_terminates (c : Cfg) (buf : Bytes) : (onMessage c buf).stuck = false :=
